@@ -108,6 +108,11 @@ var afters = []deco{
 	{"blank", " ", "", false},
 	{"tab", "\t", "", false},
 	{"newline", "\n", "", false},
+	// the other ASCII white space MySQL (and Gaea's lexer) accept between tokens; added after
+	// seeded change c21-2 (first word cut at a separator set without \v and \f) was missed
+	{"vertical-tab", "\v", "", false},
+	{"form-feed", "\f", "", false},
+	{"carriage-return", "\r", "", false},
 	{"comment-nospace", "/**/", "", false},
 	{"block-comment", " /* c */ ", "", false},
 	{"hint-comment", " /*+ h */ ", "", false},
